@@ -259,7 +259,7 @@ void field_roundtrip(const char* cfg, int W, std::size_t off, const std::vector<
     }
 }
 
-#if __cplusplus >= 201402L
+#if __cplusplus >= 201402L && !defined(VERIF_NO_CONSTEXPR)
 // constant evaluation of a subset: walking bits through named accessors and by-tag access
 namespace ce
 {
